@@ -1,15 +1,12 @@
 /-
-C01 — the full all-or-nothing statement is FALSE on the unchanged tree (finding F2).
+C01 — non-vacuity of the repair of finding F2.
 
-Full statement (kept visible):
-  ∀ s c e, s.raw = s.rawJSON → (∀ k ∈ s.socks, k.cid < s.next) →
-    (changeTo c e s).2.accepted = false → obs (changeTo c e s).1 = obs s
-
-Witness: config 1 (HTTP app, tag 1, address 0) runs; config 2 (HTTP app, tag 2, listeners on
-addresses 2 then 1) is submitted while somebody else holds address 1. The HTTP app's Start binds
-address 2, fails on address 1 and returns without closing address 2; run stops only the *other*
-apps. The attempt is rejected, the config read back is config 1 — and address 2 answers with
-tag 2. Protocol line (Driver.witnessLines), replayed on the real code on every run:
+BEFORE the fix the HTTP app's Start returned the bind error of its k-th listener without closing
+listeners 1‥k-1 (`startAppOld` in Lifecycle.lean), and run stops only the *other* apps: config 1
+(HTTP app, tag 1, address 0) runs; config 2 (HTTP app, tag 2, listeners on addresses 2 then 1) is
+submitted while somebody else holds address 1; the attempt is rejected, the config read back is
+config 1 — and address 2 answered with tag 2. With the code as it is now the same history leaves
+nothing (regression case in corpus/C01; `load_atomic` holds at full strength):
   L=0~-~3,1,0,0,-=1,0,0,-,3,3 L=0~-~3,2,0,2.1,-=1,0,0,1,3,3
 -/
 import CaddyModel.C01.Lemmas
@@ -23,22 +20,15 @@ def wEnv1 : Env := ⟨true, false, 0, [], [3], [3]⟩
 def wEnv2 : Env := ⟨true, false, 0, [1], [3], [3]⟩
 def wState : State := (step State.init (.load w1 wEnv1)).1
 
-/-- the negation of the full statement, with the concrete witness -/
-theorem load_atomic_full_fails :
-    ∃ (s : State) (c : Cfg) (e : Env), s.raw = s.rawJSON ∧ (∀ k ∈ s.socks, k.cid < s.next) ∧
-      (changeTo c e s).2.accepted = false ∧ obs (changeTo c e s).1 ≠ obs s :=
-  ⟨wState, w2, wEnv2, by decide, by decide, by decide, by decide⟩
-
-/-- what exactly is left: address 2 answers with the rejected config's tag, the read-back and
-    the old socket are untouched -/
-theorem load_atomic_witness_detail :
-    (changeTo w2 wEnv2 wState).2 = .errStart ∧ (changeTo w2 wEnv2 wState).1.raw = some w1 ∧
-    answers wState = [(0, 1)] ∧ answers (changeTo w2 wEnv2 wState).1 = [(0, 1), (2, 2)] ∧
-    httpBindExcluded w2 wEnv2 = true := by decide
-
-/-- the witness is a reachable state of the invariant, so it also refutes the history form -/
-theorem history_atomic_full_fails :
-    ∃ ops : List Op, ¬ (answers (runBoth State.init none ops).1).Perm (Spec.cfgAnswers (runBoth State.init none ops).2) :=
-  ⟨[.load w1 wEnv1, .load w2 wEnv2], by decide⟩
+/-- with the OLD Start the all-or-nothing statement fails: the old Start of config 2's HTTP app,
+    run in the state where config 1 runs, reports failure and leaves a socket on address 2
+    answering with tag 2 — the new Start, in the same state, reports failure and leaves nothing;
+    and the whole attempt, with the code as it is now, is rejected without a trace. -/
+theorem load_atomic_old_code_fails :
+    (startAppOld 1 wEnv2.blocked ⟨3, 2, 0, [2, 1], []⟩ wState).2 = false ∧
+    answers (startAppOld 1 wEnv2.blocked ⟨3, 2, 0, [2, 1], []⟩ wState).1 = [(0, 1), (2, 2)] ∧
+    (startApp 1 wEnv2.blocked ⟨3, 2, 0, [2, 1], []⟩ wState).2 = false ∧
+    answers (startApp 1 wEnv2.blocked ⟨3, 2, 0, [2, 1], []⟩ wState).1 = [(0, 1)] ∧
+    (changeTo w2 wEnv2 wState).2 = .errStart ∧ obs (changeTo w2 wEnv2 wState).1 = obs wState := by decide
 
 end CaddyModel.C01
